@@ -195,6 +195,26 @@ def cex_script(actions, n, size=UNIT):
     return lines
 
 
+def inject_scripts(name0):
+    """a system call inside p_shm_new is refused by the environment (descriptor table full, no memory, no space): the call may fail, but the
+    segment that other processes use stays what it was (third process: same size, same bytes), and a failed creation leaves no name behind"""
+    out = []
+    n = name0
+    for call, en, skip in (("shm_open", 24, 0), ("shm_open", 23, 1), ("mmap", 12, 0), ("sem_open", 24, 0), ("sem_open", 24, 1), ("ftruncate", 28, 0)):
+        n += 1
+        lines = ["P 1 shmnew 1 %d 4096" % n, "P 1 shmw 1 0 77", "P 1 shmw 1 4095 78",
+                 "X 2 %s %d %d" % (call, en, skip), "P 2 shmnew 1 %d 4096" % n, "P 2 shmr 1 0", "P 2 shmfree 1",
+                 "P 3 shmnew 1 %d 0" % n, "P 3 shmsize 1", "P 3 shmr 1 0", "P 3 shmr 1 4095", "P 3 shmlock 1", "P 3 shmunlock 1", "P 3 shmfree 1",
+                 "P 1 shmr 1 0", "P 1 shmfree 1", "P 1 shmnew 3 %d 16" % n, "P 1 shmown 3", "P 1 shmfree 3", "obs", "epoch"]
+        out.append(lines)
+        # the same refusals while the name is created
+        n += 1
+        lines = ["X 1 %s %d %d" % (call, en, skip), "P 1 shmnew 1 %d 4096" % n, "P 1 shmfree 1", "P 2 shmnew 1 %d 100" % n, "P 2 shmsize 1", "P 2 shmr 1 0", "P 2 shmfree 1",
+                 "P 1 shmnew 3 %d 16" % n, "P 1 shmown 3", "P 1 shmfree 3", "obs", "epoch"]
+        out.append(lines)
+    return out, n
+
+
 def free_crash_scripts(name0):
     out = []
     n = name0
@@ -245,6 +265,9 @@ def run(ctx):
     fc, nmax = free_crash_scripts(nmax)
     for lines, taint, n in fc:
         scripts.append(("freecrash", lines, []))
+    inj, nmax = inject_scripts(nmax)
+    for lines in inj:
+        scripts.append(("inject", lines, []))
     for i in range(10 if ctx.quick else 100):
         gen = Gen(rng, nmax + 1)
         nmax += 2
